@@ -146,7 +146,7 @@ var templates = []string{
 	"{outside}/canary.txt", "{outside}/planted", "{root}/bkt-b/secret.txt", "{iam}/users.json", "/etc/hostname", "//{outside}/canary.txt",
 	"..\\bkt-b\\secret.txt", "..%2fbkt-b%2fsecret.txt", "%2e%2e/bkt-b/secret.txt", "..\x00/bkt-b/secret.txt", "../bkt-b/secret.txt\x00.jpg",
 	"\xc0\xae\xc0\xae/bkt-b/secret.txt", "．．/bkt-b/secret.txt", ".../bkt-b/secret.txt", "..;/bkt-b/secret.txt", ". ./bkt-b/secret.txt",
-	".sgwtmp/multipart", ".sgwtmp/multipart/", "{mp1part}", "{mp1part}", ".sgwtmp/x", ".sgwtmp/../../bkt-b/secret.txt", "../bkt-b/.sgwtmp/x", "../../ver/bkt-v", "../../ver/planted", "../../../root/bkt-b/secret.txt", "../../../outside/canary.txt", "../../../../outside/canary.txt", "../../sidecar/bkt-b/secret.txt/meta/etag",
+	".sgwtmp/multipart", ".sgwtmp/multipart/", "{mp1part}", "{mp1part}", "/{mp1part}", "//{mp1part}", "/.sgwtmp/multipart/", ".sgwtmp/x", ".sgwtmp/../../bkt-b/secret.txt", "../bkt-b/.sgwtmp/x", "../../ver/bkt-v", "../../ver/planted", "../../../root/bkt-b/secret.txt", "../../../outside/canary.txt", "../../../../outside/canary.txt", "../../sidecar/bkt-b/secret.txt/meta/etag",
 	"../../sidecar/planted", "bkt-b/secret.txt", "../bkt-a/../bkt-b/secret.txt", "obj1/../../bkt-b/secret.txt", "obj1/..", "dir/..", "dir/../..", ".", "./", "/",
 	"../bkt-l/locked", "../bkt-new-by-traversal", "../bkt-new-by-traversal/", "../bkt-b/newdir/",
 	// one level less: for parameters that are joined to the storage root itself (bucket names, the bucket part of a copy source)
@@ -363,6 +363,10 @@ func execA(c caseA) (v verdict, err error) {
 		if err != nil {
 			return nil
 		}
+		// the staged part of the upload on mp1 has no business anywhere but in its staging file
+		if len(stagedBefore) > 0 && !multipartOnMP && p != stagedFile && !strings.Contains(p, "/.sgwtmp/") && bytes.Contains(b, stagedBefore) {
+			leak = fmt.Sprintf("%s now contains the staged part of another object's upload", strings.TrimPrefix(p, w.sb.Root))
+		}
 		for _, tok := range []string{cat.CanaryOutside, cat.CanaryBucketB, cat.CanaryIAM, "locked data", "accessAccounts"} {
 			if bytes.Contains(b, []byte(tok)) {
 				leak = fmt.Sprintf("%s now contains %q", strings.TrimPrefix(p, w.sb.Root), tok)
@@ -441,6 +445,11 @@ func genCase(t *rapid.T) caseA {
 		}
 		s += rapid.SampledFrom([]string{"bkt-b/secret.txt", "bkt-b/planted", "outside/canary.txt", "outside/planted", "iam/users.json", "iam/planted", "planted", "ver/planted", "sidecar/planted", "root/bkt-b/secret.txt", ""}).Draw(t, "leaf")
 		return s
+	}), rapid.Custom(func(t *rapid.T) string {
+		// the backend's staging area inside the bucket, named as if it were a key: the part another object's upload has
+		// staged, its directories, with the separators a path join swallows
+		s := rapid.SampledFrom([]string{"{mp1part}", "{mp1part}", "{mp1part}", ".sgwtmp/multipart/", ".sgwtmp/", ".sgwtmp/x"}).Draw(t, "staging")
+		return rapid.SampledFrom([]string{"", "", "/", "//", "dir/../", "obj1/../"}).Draw(t, "staging_lead") + s
 	})).Draw(t, "hostile")
 	c.Spelling = rapid.SampledFrom([]string{"plain", "plain", "raw", "raw", "pct", "pct-lower", "double", "mixed"}).Draw(t, "spelling")
 	c.Dup = rapid.SampledFrom([]int{0, 0, 0, 1, 2}).Draw(t, "dup")
